@@ -4,6 +4,7 @@ import (
 	"context"
 
 	"github.com/tellor-io/layer/x/oracle/types"
+	regtypes "github.com/tellor-io/layer/x/registry/types"
 )
 
 func (k Keeper) WeightedMode(ctx context.Context, reports []types.MicroReport, metaId uint64) (*types.Aggregate, error) {
@@ -53,8 +54,9 @@ func (k Keeper) WeightedMode(ctx context.Context, reports []types.MicroReport, m
 	}
 
 	aggregateReport := types.Aggregate{
-		QueryId:              modeReport.QueryId,
-		AggregateValue:       modeReport.Value,
+		QueryId: modeReport.QueryId,
+		// aggregate values are consumed as plain hex (bridge attestations, deposit claims)
+		AggregateValue:       regtypes.Remove0xPrefix(modeReport.Value),
 		AggregateReporter:    modeReport.Reporter,
 		ReporterPower:        totalReporterPower,
 		Reporters:            modeReporters,
